@@ -12,6 +12,10 @@ spec -> impl : TLC explores MC_Subset (every composite graph on NG glyphs with a
                order) x accented glyphs (seac) x request list, the representation of the source (hdrSize, offSize, Top DICT
                order, charset / Encoding forms, block order, Private DICT variants) rotating; replayed through subset and
                prince::subset, the output read through allsorts' visitor AND by independent charset / charstring readers.
+               MC_SubsetCid does it for CID-keyed (and name-keyed) CFF sources with subroutines: every assignment of the glyphs
+               to Font DICTs x call pattern per glyph (nested calls, a local subroutine reached only through a global one) x
+               request list, subroutine counts on both sides of the bias boundaries (1239 / 1240, 33899 / 33900), FDSelect
+               format 0 / 3; the output read through allsorts' visitor AND by an independent FDSelect / Subr INDEX walker.
 impl -> spec : repository fonts (glyf, CFF name-keyed / CID-keyed / with subroutines, CFF2) and synthesized CFF-family fonts
                whose glyphs carry operands on every Type 2 number-encoding boundary (OpenType, re-wrapped as
                WOFF / WOFF2, the repository's own WOFF / WOFF2 files) x glyph id lists from patterns through
@@ -20,6 +24,7 @@ impl -> spec : repository fonts (glyf, CFF name-keyed / CID-keyed / with subrout
 """
 import json
 import os
+import threading
 
 import vlib
 from vlib import Violation
@@ -103,6 +108,19 @@ CFF_CASE_FEATURES = (
     ["names:isoadobe-order", "names:other-order", "accented:components-requested", "accented:component-not-requested",
      "accented:closed-in-prefix-request:isoadobe-order", "accented:closed-in-prefix-request:other-order",
      "accented:closed-in-permuted-request", "accented:source-has-no-outline"])
+
+# CID-keyed / subroutine cases (MC_SubsetCid): what the replayed cases must exercise, counted by the harness from the cases (inputs)
+CID_CONFIGS = {"quick": "MC_SubsetCid_quick.cfg", "thorough": "MC_SubsetCid_thorough.cfg"}
+CID_CASE_FEATURES = (
+    ["rep:hdr=%d" % h for h in (4, 5, 8)] + ["rep:hoff=%d" % h for h in (1, 2, 3, 4)] + ["rep:ioff=%d" % h for h in (0, 3, 4)] +
+    ["rep:top=%d" % h for h in range(4)] + ["rep:short=true", "rep:short=false"] + ["rep:charset=%s" % c for c in ("f0", "f1", "f2")] +
+    ["rep:fdsel=0", "rep:fdsel=3"] + ["rep:blocks=%d" % h for h in range(3)] + ["rep:gap=0", "rep:gap=3", "kind:cid-keyed", "kind:name-keyed"] +
+    ["%s-subrs:bias-%d" % (w, b) for w in ("local", "global") for b in (107, 1131, 32768)] +
+    ["%s-subrs:count-%d" % (w, c) for w in ("local", "global") for c in (1239, 1240, 33899, 33900)] +
+    ["global-index:dropped", "global-index:kept", "local-index:dropped", "local-index:kept", "local-index:dropped:no-glyph-of-its-font-dict-requested",
+     "local-index:dropped:requested-glyphs-call-none", "local-index:kept-with-unused-entries", "local-index:one-kept-one-dropped",
+     "font-dicts-of-requested-glyphs:1", "font-dicts-of-requested-glyphs:2", "fdselect:new-glyph-in-another-font-dict-than-the-old-glyph-of-that-id",
+     "glyph:local-subr-only-through-a-global-one", "glyph:nested-local-global-local", "request:all", "request:notdef-only"])
 
 # recorded name-keyed CFF sources with accented glyphs and representation variants (c07_subset/cffrep.rs): plan names and
 # representation facts, tallied when the call is made (harness inputs)
@@ -373,7 +391,7 @@ def _generate_and_replay(ctx, binp, cfg, every, idx, features, samples):
                     features[f] = features.get(f, 0) + 1
                 if len(samples) < 1 and c["exp"]["n"] > len(c["req"]) + 1:
                     samples.append(c)
-        mc = vlib.run_tlc(ctx, "MC_Subset", cfg, "mc%d" % idx, workers=4, timeout=600 if ctx.quick else 2400, sink=sink)
+        mc = vlib.run_tlc(ctx, "MC_Subset", cfg, "mc%d" % idx, workers=4, timeout=1500 if ctx.quick else 3000, sink=sink)
     ctx.note("MC_Subset/%s: %d states generated, %d distinct, %d cases, design invariants hold (%.1fs)" %
              (cfg, mc.generated, mc.distinct, n_cases[0], mc.wall))
     if n_cases[0] == 0:
@@ -412,7 +430,7 @@ def _generate_and_replay_cff(ctx, binp, cov):
                         tlc_feat["accented_prescribed_base_and_accent"] = tlc_feat.get("accented_prescribed_base_and_accent", 0) + 1
                         if not sample and c["closed"][i] and c["names"] != sorted(c["names"]):
                             sample.append(c)
-        mc = vlib.run_tlc(ctx, "MC_SubsetCff", cfg, "mccff", workers=4, timeout=600 if ctx.quick else 2400, sink=sink)
+        mc = vlib.run_tlc(ctx, "MC_SubsetCff", cfg, "mccff", workers=4, timeout=1500 if ctx.quick else 3000, sink=sink)
     ctx.note("MC_SubsetCff/%s: %d states generated, %d distinct, %d cases, design invariants hold (%.1fs)" %
              (cfg, mc.generated, mc.distinct, n_cases[0], mc.wall))
     if n_cases[0] == 0:
@@ -447,6 +465,131 @@ def _cff_violations(mism, per_key):
             m["cfg"], m["case"], m["api"], m["class"], m.get("ctx", ""), vlib.short(m["input"], 400), vlib.short(m["exp"], 200), vlib.short(m["obs"], 300))
         out.append(Violation(key, what, {"source": "generated-cff", "mismatch": m}))
     return out
+
+
+def _generate_and_replay_cid(ctx, binp, cov):
+    """MC_SubsetCid: cases -> replay-cid. Returns (TlcResult, number of cases, harness summary, mismatches, cases path)."""
+    cfg = CID_CONFIGS[ctx.tier]
+    cases_path = ctx.path("cid_cases.ndjson")
+    n_cases = [0]
+    sample = []
+    with open(cases_path, "w") as fc:
+        def sink(tag, payload):
+            if tag != "CASE":
+                return
+            fc.write(payload + "\n")
+            n_cases[0] += 1
+            if not sample and n_cases[0] > 1000:
+                c = json.loads(payload)
+                if len(c["req"]) >= 3 and 0 in c["kept"]["l"] and any(len(g[0]) >= 4 for g in c["exp"]["glyphs"]):
+                    sample.append(c)
+        mc = vlib.run_tlc(ctx, "MC_SubsetCid", cfg, "mccid", workers=4, timeout=1500 if ctx.quick else 3000, sink=sink)
+    ctx.note("MC_SubsetCid/%s: %d states generated, %d distinct, %d cases, design invariants hold (%.1fs)" %
+             (cfg, mc.generated, mc.distinct, n_cases[0], mc.wall))
+    if n_cases[0] == 0:
+        raise vlib.ToolError("no CASE lines generated by %s" % cfg)
+    mism_path = ctx.path("cid_mismatches.ndjson")
+    rep = vlib.run_harness(binp, ["replay-cid", cases_path, mism_path], timeout=2400)
+    ctx.note("replay-cid %s: %s" % (cfg, json.dumps(rep)))
+    if rep.get("cases") != n_cases[0]:
+        raise vlib.ToolError("replay-cid consumed %s cases, TLC printed %d" % (rep.get("cases"), n_cases[0]))
+    missing = [k for k in CID_CASE_FEATURES if not rep.get("features", {}).get(k)]
+    if not ctx.quick and not rep.get("features", {}).get("font-dicts-of-requested-glyphs:3"):
+        missing.append("font-dicts-of-requested-glyphs:3")
+    if missing:
+        raise vlib.ToolError("CID-keyed / subroutine cases are vacuous for: %s" % missing)
+    mism = vlib.read_ndjson(mism_path)
+    for m in mism:
+        m["cfg"] = cfg
+    cov.update({"cid_cases": n_cases[0], "cid_states": mc.distinct, "cid_replay": rep, "cid_sample": sample[:1]})
+    return mc, n_cases[0], rep, mism, cases_path
+
+
+def _cid_violations(mism, per_key):
+    out = []
+    for m in mism:
+        key = "gencid|%s|%s|%s" % (m["kind"], m["api"], m["class"])
+        per_key[key] = per_key.get(key, 0) + 1
+        if per_key[key] > 1:
+            continue
+        what = "generated %s case %s #%d (subroutines / Font DICTs) through %s: %s: input %s: prescribed %s, observed %s" % (
+            m["kind"], m["cfg"], m["case"], m["api"], m["class"], vlib.short(m["input"], 600), vlib.short(m["exp"], 200), vlib.short(m["obs"], 300))
+        out.append(Violation(key, what, {"source": "generated-cid", "mismatch": m}))
+    return out
+
+
+def _selfcheck_replay_cid(ctx, binp, cases_path, reported, families=3):
+    """Corrupted prescriptions of CID-keyed / subroutine cases must be reported, the untouched case not."""
+    goods = []
+    bad_cases = {m["case"] for m in reported}
+    with open(cases_path) as f:
+        for n, ln in enumerate(f, 1):
+            if n % 997 != 5 or n in bad_cases:
+                continue
+            c = json.loads(ln)
+            if len(c["req"]) >= 2 and len(c["exp"]["glyphs"][-1][0]) >= 2:
+                goods.append(c)
+                if len(goods) >= families:
+                    break
+    if not goods:
+        raise vlib.ToolError("self-check (replay-cid): no case whose last requested glyph draws two shapes")
+    kinds = ("token", "dropped", "swapped", "lost", "advance", "lsb", "count")
+    items = []
+    for good in goods:
+        items.append(good)
+        for what in kinds:
+            c = json.loads(json.dumps(good))
+            e = c["exp"]["glyphs"][-1]
+            if what == "token":
+                e[0][-1] += 1
+            elif what == "dropped":
+                e[0] = e[0][:-1]
+            elif what == "swapped":
+                e[0] = [e[0][1], e[0][0]] + e[0][2:]
+            elif what == "lost":
+                e[0] = [-1]
+            elif what == "advance":
+                e[1] += 7777
+            elif what == "lsb":
+                e[2] -= 7777
+            else:
+                c["exp"]["n"] += 1
+            items.append(c)
+    p = ctx.path("selfcheck_cid_cases.ndjson")
+    vlib.write_ndjson(p, items)
+    vlib.run_harness(binp, ["replay-cid", p, ctx.path("selfcheck_cid_mism.ndjson")])
+    got = {}
+    for m in vlib.read_ndjson(ctx.path("selfcheck_cid_mism.ndjson")):
+        got.setdefault(m["case"], set()).add(m["api"])
+    per = 1 + len(kinds)
+    valid = 0
+    for k in range(len(goods)):
+        base = k * per + 1
+        if base in got:
+            continue                      # the untouched case does not conform on this tree: proves nothing
+        valid += 1
+        missing = [kinds[j] for j in range(len(kinds)) if "subset" not in got.get(base + 1 + j, set())]
+        missing += [kinds[j] + "(prince)" for j in range(len(kinds)) if kinds[j] not in ("advance", "lsb") and "prince" not in got.get(base + 1 + j, set())]
+        if missing:
+            raise vlib.ToolError("binding self-check (replay-cid) failed: corrupted prescriptions %s not reported" % missing)
+    return valid, len(goods), len(kinds)
+
+
+def _cid_stage(ctx, binp, cov, box):
+    """The CFF stages (MC_SubsetCid, then MC_SubsetCff) run beside the glyf stage (own TLC runs, own harness processes);
+    exceptions are handed to the main thread."""
+    try:
+        mc, n, rep, mism, cases = _generate_and_replay_cid(ctx, binp, cov)
+        box["result"] = (mc, n, rep, mism, cases)
+        box["self"] = _selfcheck_replay_cid(ctx, binp, cases, mism)
+    except BaseException as e:          # re-raised by the main thread
+        box["error"] = e
+    try:
+        r = _generate_and_replay_cff(ctx, binp, cov)
+        box["cff"] = r
+        box["cff_self"] = _selfcheck_replay_cff(ctx, binp, r[4], r[3])
+    except BaseException as e:
+        box["cff_error"] = e
 
 
 def _selfcheck_replay_cff(ctx, binp, cases_path, reported, families=3):
@@ -732,6 +875,17 @@ def _gen_violations(gen_mism, per_key):
 
 def _run(ctx, found, cov):
     binp = vlib.build_harness("c07_subset")
+    # spec -> impl for CFF sources (MC_SubsetCid, MC_SubsetCff): beside the glyf stage, joined before the recording
+    cid_box = {}
+    cid_thread = threading.Thread(target=_cid_stage, args=(ctx, binp, cov, cid_box))
+    cid_thread.start()
+    try:
+        _run_rest(ctx, found, cov, binp, cid_thread, cid_box)
+    finally:
+        cid_thread.join()
+
+
+def _run_rest(ctx, found, cov, binp, cid_thread, cid_box):
     features, samples = {}, []
     gen_traces, gen_mism = [], []
     states = generated = total_cases = 0
@@ -760,15 +914,30 @@ def _run(ctx, found, cov):
     if missing:
         raise vlib.ToolError("generator is vacuous for: %s" % missing)
 
-    # spec -> impl, name-keyed CFF
-    mc_cff, n_cff, rep_cff, cff_mism, cff_cases = _generate_and_replay_cff(ctx, binp, cov)
-    states += mc_cff.distinct
-    generated += mc_cff.generated
-    total_cases += n_cff
-    found.extend(_cff_violations(cff_mism, {}))
-    cff_self = _selfcheck_replay_cff(ctx, binp, cff_cases, cff_mism)
+    # spec -> impl, name-keyed CFF and subroutines / Font DICTs (ran beside the stage above): what they found is kept before
+    # any of their tool problems is raised
+    cid_thread.join()
+    cff_mism, cid_mism = [], []
+    if "cff" in cid_box:
+        mc_cff, n_cff, rep_cff, cff_mism, cff_cases = cid_box["cff"]
+        states += mc_cff.distinct
+        generated += mc_cff.generated
+        total_cases += n_cff
+        found.extend(_cff_violations(cff_mism, {}))
+    if "result" in cid_box:
+        mc_cid, n_cid, rep_cid, cid_mism, cid_cases = cid_box["result"]
+        states += mc_cid.distinct
+        generated += mc_cid.generated
+        total_cases += n_cid
+        found.extend(_cid_violations(cid_mism, {}))
+    for k in ("cff_error", "error"):
+        if k in cid_box:
+            raise cid_box[k]
+    cff_self, cid_self = cid_box["cff_self"], cid_box["self"]
     if cff_self[0] == 0 and not cff_mism:
         raise vlib.ToolError("binding self-check (replay-cff): no untouched case accepted, yet no mismatch reported")
+    if cid_self[0] == 0 and not cid_mism:
+        raise vlib.ToolError("binding self-check (replay-cid): no untouched case accepted, yet no mismatch reported")
 
     # impl -> spec
     vacuous = []
@@ -817,7 +986,7 @@ def _run(ctx, found, cov):
     real = [m for m in mism if not m["case"].startswith("selftest-")]
     if replay_self[0] == 0 and not gen_mism:
         raise vlib.ToolError("binding self-check (replay): no untouched case accepted, yet no generated mismatch reported")
-    self_verdict = _eval_selfcheck(fams, mism, bool(real) or bool(gen_mism) or bool(cff_mism))
+    self_verdict = _eval_selfcheck(fams, mism, bool(real) or bool(gen_mism) or bool(cff_mism) or bool(cid_mism))
     ctx.note("binding self-check: %s" % json.dumps(self_verdict))
     for k in ("subsets_ok", "with_pulled_in", "order_as_model", "outlines_nonempty", "metrics_compared", "records_compared",
               "composite_records", "kind_glyf", "kind_cff", "kind_cid", "kind_cff2",
@@ -828,7 +997,7 @@ def _run(ctx, found, cov):
 
     # violations
     per_key = {}
-    violations = _gen_violations(gen_mism, per_key) + _cff_violations(cff_mism, per_key)
+    violations = _gen_violations(gen_mism, per_key) + _cff_violations(cff_mism, per_key) + _cid_violations(cid_mism, per_key)
     bad = [m for m in mism if not m["case"].startswith("selftest-")]
     first = {}
     for m, key in zip(bad, _keys_trace(bad)):
@@ -879,10 +1048,11 @@ def _run(ctx, found, cov):
         "tlc_states_generated": generated,
         "binding_selfcheck": {"replay": "%d of %d families valid (untouched case accepted), %d corrupted prescriptions each, all reported" % replay_self,
                               "replay_cff": "%d of %d families valid (untouched case accepted), %d corrupted prescriptions each, all reported" % cff_self,
+                              "replay_cid": "%d of %d families valid (untouched case accepted), %d corrupted prescriptions each, all reported" % cid_self,
                               "judge": self_verdict, "planted_events": len(planted)},
         "exhaustive": True,
-        "explanation": "exhaustive over the bounded models (configs %s, %s); repository fonts: %s" % (
-            ", ".join(c for c, _ in CONFIGS[ctx.tier]), CFF_CONFIGS[ctx.tier], "seeded sample" if ctx.quick else "all, larger id lists"),
+        "explanation": "exhaustive over the bounded models (configs %s, %s, %s); repository fonts: %s" % (
+            ", ".join(c for c, _ in CONFIGS[ctx.tier]), CFF_CONFIGS[ctx.tier], CID_CONFIGS[ctx.tier], "seeded sample" if ctx.quick else "all, larger id lists"),
     })
     vlib.finish(ctx, LEVEL, coverage, violations, ASSUMPTIONS)
 
@@ -913,6 +1083,19 @@ def replay(ctx, path):
         mm = [x for x in vlib.read_ndjson(ctx.path("cff_mism.ndjson")) if x["api"] == m["api"]]
         for x in mm:
             print("REPRODUCED api=%s class=%s ctx=%s prescribed=%s observed=%s" % (x["api"], x["class"], x["ctx"], vlib.short(x["exp"], 300), vlib.short(x["obs"], 300)))
+        if not mm:
+            print("not reproduced: the case now conforms")
+        return 1 if mm else 0
+    if d["source"] == "generated-cid":
+        m = d["mismatch"]
+        case = dict(m["input"])
+        case["exp"] = m["exp"]
+        cp = ctx.path("cid_case.ndjson")
+        vlib.write_ndjson(cp, [case])
+        vlib.run_harness(binp, ["replay-cid", cp, ctx.path("cid_mism.ndjson")])
+        mm = [x for x in vlib.read_ndjson(ctx.path("cid_mism.ndjson")) if x["api"] == m["api"]]
+        for x in mm:
+            print("REPRODUCED api=%s class=%s prescribed=%s observed=%s" % (x["api"], x["class"], vlib.short(x["exp"], 300), vlib.short(x["obs"], 300)))
         if not mm:
             print("not reproduced: the case now conforms")
         return 1 if mm else 0
